@@ -97,12 +97,12 @@ def main(tier):
     try:
         wd = chk.workdir
         cfg = os.path.join(wd, "prog.cfg")
-        tlc.write_cfg(cfg, spec="Spec", constants=BASE, view="View",
+        tlc.write_cfg(cfg, spec="Spec", constants=dict(BASE, MaxGens=1 if tier == "quick" else 2), view="View",
                       invariants=["Balanced", "TopLevelEmpty", "ArgsOfInnermost"], properties=["CallerUntouched"])
         r0 = tlc.run("JtProgram", cfg, wd, args=["-coverage", "1"])
         chk.add_tlc("JtProgram[finally]", r0)
         chk.action_coverage("JtProgram", r0, ["Call", "BadCall", "MakeDC", "BadDC", "EnterCtx", "Check", "ArgCheck", "Return", "Raise",
-                                               "MakeGen", "GenNext"])
+                                               "MakeGen", "GenNext", "GenClose"])
         cfgb = os.path.join(wd, "prog_broken.cfg")
         tlc.write_cfg(cfgb, spec="Spec", constants=dict(BASE, PopDiscipline="except_exception"), view="View",
                       invariants=["Balanced"])
